@@ -6,6 +6,7 @@ import (
 	"github.com/canopy-network/canopy/lib"
 	"github.com/canopy-network/canopy/lib/crypto"
 	"google.golang.org/protobuf/proto"
+	"math"
 	"slices"
 )
 
@@ -670,6 +671,9 @@ func (x *MessageEditOrder) Check() lib.ErrorI {
 	if len(x.Data) > 100 {
 		return ErrInvalidOpcode()
 	}
+	if err := checkOrderId(x.OrderId); err != nil {
+		return err
+	}
 	if x.AmountForSale == 0 || x.RequestedAmount == 0 {
 		return ErrInvalidAmount()
 	}
@@ -721,7 +725,12 @@ func (x *MessageDeleteOrder) Name() string      { return MessageDeleteOrderName 
 func (x *MessageDeleteOrder) Recipient() []byte { return nil }
 
 // Check() validates the Message structure
-func (x *MessageDeleteOrder) Check() lib.ErrorI { return checkChainId(x.ChainId) }
+func (x *MessageDeleteOrder) Check() lib.ErrorI {
+	if err := checkOrderId(x.OrderId); err != nil {
+		return err
+	}
+	return checkChainId(x.ChainId)
+}
 
 // MarshalJSON() is the json.Marshaller implementation for MessageEditOrder
 func (x *MessageDeleteOrder) MarshalJSON() ([]byte, error) {
@@ -1026,6 +1035,15 @@ func checkStartEndHeight(proposal GovProposal) lib.ErrorI {
 	return nil
 }
 
+// checkOrderId() validates the size of an order id: the id is one length prefixed segment of the order's store key, and the
+// length prefix is a single byte - no order can exist under a longer id (and a key built from one is malformed)
+func checkOrderId(orderId []byte) lib.ErrorI {
+	if len(orderId) > math.MaxUint8 {
+		return lib.ErrOrderNotFound()
+	}
+	return nil
+}
+
 // checkOrders() validates the (swap) orders within the transaction
 func checkOrders(orders *lib.Orders) lib.ErrorI {
 	if orders != nil {
@@ -1034,6 +1052,9 @@ func checkOrders(orders *lib.Orders) lib.ErrorI {
 		for _, lockOrder := range orders.LockOrders {
 			if lockOrder == nil {
 				return ErrInvalidLockOrder()
+			}
+			if err := checkOrderId(lockOrder.OrderId); err != nil {
+				return err
 			}
 			if found := deDupe.Found(lib.BytesToString(lockOrder.OrderId)); found {
 				return ErrDuplicateLockOrder()
@@ -1048,6 +1069,9 @@ func checkOrders(orders *lib.Orders) lib.ErrorI {
 		// ensure no duplicate reset orders
 		deDupe = lib.NewDeDuplicator[string]()
 		for _, resetOrder := range orders.ResetOrders {
+			if err := checkOrderId(resetOrder); err != nil {
+				return err
+			}
 			if found := deDupe.Found(lib.BytesToString(resetOrder)); found {
 				return ErrInvalidCloseOrder()
 			}
@@ -1055,6 +1079,9 @@ func checkOrders(orders *lib.Orders) lib.ErrorI {
 		// ensure no duplicate close orders
 		deDupe = lib.NewDeDuplicator[string]()
 		for _, closeOrder := range orders.CloseOrders {
+			if err := checkOrderId(closeOrder); err != nil {
+				return err
+			}
 			if found := deDupe.Found(lib.BytesToString(closeOrder)); found {
 				return ErrInvalidCloseOrder()
 			}
